@@ -9,7 +9,7 @@ PROPS["C05"] = P(
     "distinct_nontrivial = number of distinct cells (word type, exact width, constructor or backing or atomic round) whose case was non-degenerate: a history that grew, shrank and "
     "set elements with more than one element alive; an iteration case with len > 1; an atomic history with at least one set_atomic on len > 1",
     dict(builds=["DBG", "UBC"]),
-    dict(builds=["DBG", "UBC", "ASAN", "MIRI"], shards={"MIRI": 8, "ASAN": 8}),
+    dict(builds=["DBG", "UBC", "ASAN", "MIRI"], shards={"MIRI": 12, "ASAN": 8}),
     hang="violation",
     level_text="Exploration: thousands of random operation histories on the real BitFieldVec/AtomicBitFieldVec for all six word types and every bit width, every observation compared with a "
     "Vec<u128> model, in a debug build (overflow checks, debug assertions, std UB pre-condition checks) and a release build with -Zub-checks; thorough adds ASan and Miri (reduced widths, "
